@@ -111,6 +111,13 @@ impl HashTableIndexer {
             forall|i: int| at(old(self).table.v@, record.k, i) ==> r == Some(old(self).table.v@[i])
                 && final(self).table.v@ == old(self).table.v@.update(i, record), // @label a_record_of_an_indexed_key_replaces_that_keys_record_only
 //@end
+// path canary (must FAIL): this path of insert is not vacuous
+//@region foyer-memory/src/indexer/hash_table.rs :: impl~^impl<E> Indexer for HashTableIndexer<E>/fn insert name=canary_insert_replace_path whole=1 sub=@(?m)\.entry\(([^|]+), \|(\w+)\| (.+), \|(\w+)\| (.+)\)( \{)?$@.entry(\1, |verif_e: &Arc<Record>| -> (r: bool) ensures verif_e.h == record.h ==> r == (record.k == verif_e.k) /* #label the_index_is_probed_by_key_equality_not_by_hash */ { let \2 = verif_e; \3 }, |verif_e: &Arc<Record>| -> (r: u64) ensures r == verif_e.h /* #label rehash_closure_returns_the_hash_the_element_was_stored_under */ { let \4 = verif_e; \5 })\6@
+//@head
+    pub fn canary_insert_replace_path(&mut self, mut record: Arc<Record>) -> (r: Option<Arc<Record>>)
+        requires wf(old(self).table.v@), record.h == key_hash(record.k),
+        ensures forall|i: int| at(old(self).table.v@, record.k, i) ==> final(self).table.v@.len() == 777,
+//@end
 
 // ---- get: the record of exactly the requested key, or None when that key is not indexed
 //@region foyer-memory/src/indexer/hash_table.rs :: impl~^impl<E> Indexer for HashTableIndexer<E>/fn get name=get whole=1 sub=@(?m)\.find\((\w+), \|(\w+)\| (.+)\)( \{)?$@.find(\1, |verif_e: &Arc<Record>| -> (r: bool) ensures verif_e.h == \1 ==> r == (*key == verif_e.k) /* #label the_index_is_probed_by_key_equality_not_by_hash */ { let \2 = verif_e; \3 })@
@@ -131,6 +138,13 @@ impl HashTableIndexer {
             wf(final(self).table.v@),
             absent(old(self).table.v@, *key) ==> r is None && final(self).table.v@ == old(self).table.v@, // @label remove_of_a_key_that_is_not_indexed_changes_nothing
             forall|i: int| at(old(self).table.v@, *key, i) ==> r == Some(old(self).table.v@[i]) && removed_at(final(self).table.v@, old(self).table.v@, i), // @label remove_takes_only_that_keys_record
+//@end
+// path canary (must FAIL): this path of remove is not vacuous
+//@region foyer-memory/src/indexer/hash_table.rs :: impl~^impl<E> Indexer for HashTableIndexer<E>/fn remove name=canary_remove_hit_path whole=1 sub=@(?m)\.entry\(([^|]+), \|(\w+)\| (.+), \|(\w+)\| (.+)\)( \{)?$@.entry(\1, |verif_e: &Arc<Record>| -> (r: bool) ensures verif_e.h == \1 ==> r == (*key == verif_e.k) /* #label the_index_is_probed_by_key_equality_not_by_hash */ { let \2 = verif_e; \3 }, |verif_e: &Arc<Record>| -> (r: u64) ensures r == verif_e.h /* #label rehash_closure_returns_the_hash_the_element_was_stored_under */ { let \4 = verif_e; \5 })\6@
+//@head
+    pub fn canary_remove_hit_path(&mut self, hash: u64, key: &KeyT) -> (r: Option<Arc<Record>>)
+        requires wf(old(self).table.v@), hash == key_hash(*key),
+        ensures forall|i: int| at(old(self).table.v@, *key, i) ==> final(self).table.v@.len() == 777,
 //@end
 
 }
